@@ -11,10 +11,16 @@ import (
 	"golang.org/x/net/html"
 	"golang.org/x/net/html/atom"
 
+	"encoding/json"
+	"errors"
+
+	"servitor/ansi"
 	"servitor/gemtext"
 	"servitor/hypertext"
 	"servitor/markdown"
+	"servitor/object"
 	"servitor/plaintext"
+	"servitor/style"
 )
 
 type markup interface{ Render(int) string }
@@ -59,6 +65,57 @@ func dumpFragment(text string) {
 }
 
 func init() {
+	// args: json document {"content":..., "mediaType":...}, widths ; the real path GetMarkup -> Render
+	// lib: kind (0 plain 1 html 2 gemini 3 markdown, -1 none), scrubbed content, parse tree for html/markdown
+	// result: ok?, nlinks links..., renderings
+	register("objrender", func(a []int) []int {
+		r := &reader{toks: a}
+		doc := r.text()
+		widths := r.list()
+		var m map[string]any
+		if err := json.NewDecoder(strings.NewReader(doc)).Decode(&m); err != nil {
+			return []int{-1}
+		}
+		o := object.Object(m)
+		// what the model needs from the libraries
+		if raw, ok := m["content"].(string); ok {
+			content := ansi.Scrub(raw)
+			libOut = putText(libOut, content)
+			kind := 1
+			if mt, ok := m["mediaType"].(string); ok {
+				switch strings.SplitN(ansi.Scrub(mt), ";", 2)[0] {
+				case "text/markdown":
+					kind = 3
+				}
+			}
+			if kind == 3 {
+				var buf bytes.Buffer
+				if e := mdRenderer.Convert([]byte(content), &buf); e != nil {
+					emitLib(-1)
+				} else {
+					dumpFragment(buf.String())
+				}
+			} else {
+				dumpFragment(content)
+			}
+		}
+		mk, links, err := o.GetMarkup("content", "mediaType")
+		if err != nil {
+			return []int{0}
+		}
+		out := []int{1, len(links)}
+		for _, l := range links {
+			out = putText(out, l)
+		}
+		for _, w := range widths {
+			out = putText(out, mk.Render(w))
+		}
+		return out
+	})
+	register("problem", func(a []int) []int {
+		r := &reader{toks: a}
+		return putText(nil, style.Problem(errors.New(r.text())))
+	})
 	// args: kind(0 plain,1 html,2 gemini,3 markdown) content nwidths widths...
 	// result: ok?, nlinks links..., then one rendering per width
 	register("render", func(a []int) []int {
